@@ -223,7 +223,7 @@ theorem cmpIntFloat_exact (a : Int64) (b : F) (y : Ext) (hb : b.ext = some y) :
     · simpa [intExt, Ext.cmp] using cmpIntFloat_fin_nonneg a s m e he
     · simpa [intExt, Ext.cmp] using cmpIntFloat_fin_neg a s m e (by omega)
 
-theorem cmpIntFloat_nan (a : Int64) : cmpIntFloat a .nan = none := by simp [cmpIntFloat, F.isNan]
+theorem cmpIntFloat_nan (a : Int64) (s : Bool) : cmpIntFloat a (.nan s) = none := by simp [cmpIntFloat, F.isNan]
 
 theorem i64cmp_exact (a b : Int64) : i64cmp a b = Ext.cmp (intExt a) (intExt b) := by
   simp [i64cmp, intExt, Ext.cmp, Dy.cmp, Dy.scaled]
@@ -273,9 +273,16 @@ theorem Res.bind_safe (r : Res) (k : Value → Res) (hr : r.safe) (hk : ∀ v, (
 theorem cmpVals_safe (op : CmpOp) (l r : Value) : (cmpVals .fixed op l r).safe := by
   unfold cmpVals; split <;> simp
 
+theorem cmpValsExpr_safe (op : CmpOp) (l r : Value) : (cmpValsExpr .fixed op l r).safe := by
+  unfold cmpValsExpr; split <;> simp [cmpVals_safe]
+
+theorem cmpValsExpr_num (op : CmpOp) (l r : Value) (x y : Ext) (hl : numExt l = some x) (hr : numExt r = some y) :
+    cmpValsExpr .fixed op l r = cmpVals .fixed op l r := by
+  cases l <;> simp [numExt] at hl <;> cases r <;> simp [numExt] at hr <;> simp [cmpValsExpr]
+
 theorem binop_safe (fo : FOps) (op : BinOp) (l r : Value) : (binop fo .fixed op l r).safe := by
   unfold binop
-  split <;> (try split) <;> (try split) <;> simp_all [iadd, isub, imul, idiv, irem, cmpVals_safe]
+  split <;> (try split) <;> (try split) <;> simp_all [iadd, isub, imul, idiv, irem, cmpVals_safe, cmpValsExpr_safe]
 
 theorem unop_safe (op : UnOp) (v : Value) : (unop .fixed op v).safe := by
   unfold unop; split <;> simp [ineg]
@@ -400,7 +407,7 @@ theorem bIs_safe (p : Value → Bool) (args : List Value) : (bIs p args).safe :=
 theorem builtinTable_safe (fo : FOps) : ∀ p ∈ builtinTable fo .fixed, ∀ args, (p.2 args).safe := by
   intro p hp args
   simp only [builtinTable, List.mem_cons, List.mem_nil_iff, or_false] at hp
-  rcases hp with h | h | h | h | h | h | h | h | h | h | h | h | h | h | h | h | h | h | h | h | h | h | h | h | h | h | h | h | h | h | h | h | h | h | h | h | h | h | h | h <;> subst h <;> simp only []
+  rcases hp with h | h | h | h | h | h | h | h | h | h | h | h | h | h | h | h | h | h | h | h | h | h | h | h | h | h | h | h | h | h | h | h | h | h | h | h | h | h | h | h | h | h | h | h | h | h | h | h | h | h <;> subst h <;> simp only []
   · unfold bAbs; split <;> simp [iabs_safe]
   · unfold bFn1; split <;> simp
   · unfold bFn1; split <;> simp
@@ -439,7 +446,17 @@ theorem builtinTable_safe (fo : FOps) : ∀ p ∈ builtinTable fo .fixed, ∀ ar
   · unfold bEndsWith; split <;> simp
   · unfold bSubstring; split <;> simp [substrCore_safe]
   · unfold bTypeOf; split <;> simp
-  all_goals exact bIs_safe _ _
+  iterate 7 exact bIs_safe _ _
+  · unfold bSort; split <;> simp
+  · unfold bToString; split <;> simp
+  · unfold bTrim; split <;> simp
+  · unfold bLower; split <;> simp
+  · unfold bLower; split <;> simp
+  · unfold bUpper; split <;> simp
+  · unfold bUpper; split <;> simp
+  · unfold bSplit; split <;> simp
+  · unfold bJoin; split <;> simp
+  · unfold bReplace; split <;> simp
 
 theorem builtin_safe (fo : FOps) (name : String) (args : List Value) : (builtin fo .fixed name args).safe := by
   unfold builtin
@@ -806,6 +823,192 @@ theorem Dy.cmp_eq_iff (x y : Dy) : Dy.cmp x y = .eq ↔ x.toRat = y.toRat := by
 theorem Dy.cmp_gt_iff (x y : Dy) : Dy.cmp x y = .gt ↔ y.toRat < x.toRat := by
   rw [← Dy.cmp_lt_iff y x, Dy.cmp_rev x y]
   cases Dy.cmp x y <;> simp [Ordering.rev]
+
+
+/-! ## C11: pattern expressions -/
+
+theorem patAgg_safe (fo : FOps) (name : String) (xs : List Value) (r : Res) (h : patAgg fo name xs = some r) : r.safe := by
+  unfold patAgg at h
+  split at h <;> simp at h <;> subst h <;> (try split) <;> simp [Res.safe_ofOption]
+
+theorem patternBinop_safe (op : BinOp) (l r : Value) : (patternBinop .fixed op l r).safe := by
+  unfold patternBinop
+  split <;> first | exact cmpVals_safe _ _ _ | (unfold cmpValsSameKind; split <;> simp) | simp
+
+theorem evalPat_safe (fo : FOps) : ∀ (e : Expr) (vars : List (String × Value)), (evalPat fo .fixed vars e).safe
+  | .block names vals res, vars => by simp only [evalPat]; exact evalPat_safe fo res _
+  | .lambda _ body, vars => by simp only [evalPat]; exact evalPat_safe fo body vars
+  | .ident x, vars => by simp [evalPat, Res.safe_ofOption]
+  | .int _, _ => by simp [evalPat]
+  | .float _, _ => by simp [evalPat]
+  | .bool _, _ => by simp [evalPat]
+  | .str _, _ => by simp [evalPat]
+  | .bin op l r, vars => by
+    simp only [evalPat]
+    exact Res.bind_safe _ _ (evalPat_safe fo l vars) fun lv =>
+      Res.bind_safe _ _ (evalPat_safe fo r vars) fun rv => patternBinop_safe op lv rv
+  | .member recv m, vars => by
+    simp only [evalPat]
+    exact Res.bind_safe _ _ (evalPat_safe fo recv vars) fun rv => by split <;> simp [Res.safe_ofOption]
+  | .call (.member recv m) args, vars => by
+    simp only [evalPat]
+    refine Res.bind_safe _ _ (evalPat_safe fo recv vars) fun rv => ?_
+    split
+    · split <;> try simp
+      split
+      · rename_i r hr; exact patAgg_safe fo _ _ r hr
+      · simp
+    · simp
+  | .call (.ident f) (a :: _), vars => by
+    simp only [evalPat]
+    split
+    · split
+      · simp
+      · split
+        · split <;> simp
+        · split
+          · rename_i r hr; exact patAgg_safe fo _ _ r hr
+          · simp
+    · simp
+  | .call (.ident f) [], vars => by simp [evalPat]
+  | .call (.null) _, _ => by simp [evalPat]
+  | .call (.bool _) _, _ => by simp [evalPat]
+  | .call (.int _) _, _ => by simp [evalPat]
+  | .call (.float _) _, _ => by simp [evalPat]
+  | .call (.str _) _, _ => by simp [evalPat]
+  | .call (.dur _) _, _ => by simp [evalPat]
+  | .call (.ts _) _, _ => by simp [evalPat]
+  | .call (.arr _) _, _ => by simp [evalPat]
+  | .call (.map _ _) _, _ => by simp [evalPat]
+  | .call (.bin _ _ _) _, _ => by simp [evalPat]
+  | .call (.un _ _) _, _ => by simp [evalPat]
+  | .call (.optMember _ _) _, _ => by simp [evalPat]
+  | .call (.index _ _) _, _ => by simp [evalPat]
+  | .call (.slice _ _ _) _, _ => by simp [evalPat]
+  | .call (.call _ _) _, _ => by simp [evalPat]
+  | .call (.lambda _ _) _, _ => by simp [evalPat]
+  | .call (.ite _ _ _) _, _ => by simp [evalPat]
+  | .call (.coalesce _ _) _, _ => by simp [evalPat]
+  | .call (.range _ _ _) _, _ => by simp [evalPat]
+  | .call (.block _ _ _) _, _ => by simp [evalPat]
+  | .null, _ => by simp [evalPat]
+  | .dur _, _ => by simp [evalPat]
+  | .ts _, _ => by simp [evalPat]
+  | .arr _, _ => by simp [evalPat]
+  | .map _ _, _ => by simp [evalPat]
+  | .un _ _, _ => by simp [evalPat]
+  | .optMember _ _, _ => by simp [evalPat]
+  | .index _ _, _ => by simp [evalPat]
+  | .slice _ _ _, _ => by simp [evalPat]
+  | .ite _ _ _, _ => by simp [evalPat]
+  | .coalesce _ _, _ => by simp [evalPat]
+  | .range _ _ _, _ => by simp [evalPat]
+
+
+/-! ## C11: the comparator of `sort` is a total preorder -/
+
+theorem strCmp_rev (a b : String) : strCmp b a = Ordering.rev (strCmp a b) := by
+  unfold strCmp
+  by_cases h1 : a < b
+  · have h2 : ¬ b < a := String.lt_asymm h1
+    have h3 : ¬ (b == a) = true := by
+      intro h; have := eq_of_beq h; subst this; exact String.lt_irrefl _ h1
+    simp [h1, h2, h3, Ordering.rev]
+  · by_cases h2 : (a == b) = true
+    · have := eq_of_beq h2; subst this; simp [String.lt_irrefl, Ordering.rev]
+    · have hne : a ≠ b := fun h => h2 (by simp [h])
+      have h3 : b < a := by
+        rcases String.le_total a b with h | h
+        · exfalso; exact hne (String.le_antisymm h (String.not_lt.mp h1))
+        · exact Classical.byContradiction fun hc => hne (String.le_antisymm (String.not_lt.mp hc) h)
+      have h4 : ¬ (b == a) = true := fun h => hne (eq_of_beq h).symm
+      simp [h1, h2, h3, Ordering.rev]
+
+theorem F.totalCmp_rev (a b : F) : F.totalCmp b a = Ordering.rev (F.totalCmp a b) := by
+  cases a <;> cases b <;> simp only [F.totalCmp] <;> try exact icmp_rev _ _
+  rename_i s1 m1 e1 s2 m2 e2
+  rw [Dy.cmp_rev ⟨F.snum s1 m1, e1⟩ ⟨F.snum s2 m2, e2⟩]
+  cases Dy.cmp ⟨F.snum s1 m1, e1⟩ ⟨F.snum s2 m2, e2⟩ <;> simp only [Ordering.rev]
+  exact icmp_rev _ _
+
+theorem sortCmp_rev (a b : Value) : sortCmp b a = Ordering.rev (sortCmp a b) := by
+  cases a <;> cases b <;> simp only [sortCmp] <;>
+    first | exact icmp_rev _ _ | exact F.totalCmp_rev _ _ | exact strCmp_rev _ _
+
+
+theorem icmp_le_iff {u v : Int} : icmp u v ≠ .gt ↔ u ≤ v := by
+  constructor
+  · intro h; apply Classical.byContradiction; intro hc; exact h (icmp_gt_iff.mpr (by omega))
+  · intro h hc; have := icmp_gt_iff.mp hc; omega
+
+theorem icmp_trans {u v w : Int} (h1 : icmp u v ≠ .gt) (h2 : icmp v w ≠ .gt) : icmp u w ≠ .gt := by
+  rw [icmp_le_iff] at *; omega
+
+theorem strCmp_le_iff (a b : String) : strCmp a b ≠ .gt ↔ a ≤ b := by
+  unfold strCmp
+  by_cases h1 : a < b
+  · have : a ≤ b := String.not_lt.mp (String.lt_asymm h1)
+    simp [h1, this]
+  · by_cases h2 : (a == b) = true
+    · have := eq_of_beq h2; subst this
+      have : a ≤ a := String.not_lt.mp (String.lt_irrefl _)
+      simp [String.lt_irrefl]
+    · have hba : b ≤ a := String.not_lt.mp h1
+      have : ¬ a ≤ b := fun hle => h2 (by simp [String.le_antisymm hle hba])
+      simp [h1, h2, this]
+
+theorem strCmp_trans {a b c : String} (h1 : strCmp a b ≠ .gt) (h2 : strCmp b c ≠ .gt) : strCmp a c ≠ .gt := by
+  rw [strCmp_le_iff] at *; exact String.le_trans h1 h2
+
+/-- three dyadics on one common scale -/
+theorem Dy.cmp3 (x y z : Dy) : ∃ X Y Z : Int, Dy.cmp x y = icmp X Y ∧ Dy.cmp y z = icmp Y Z ∧ Dy.cmp x z = icmp X Z := by
+  let k := min x.exp (min y.exp z.exp)
+  have h1 : k ≤ x.exp := by omega
+  have h2 : k ≤ y.exp := by omega
+  have h3 : k ≤ z.exp := by omega
+  exact ⟨x.scaled k, y.scaled k, z.scaled k, Dy.cmp_eq_of_le x y k h1 h2, Dy.cmp_eq_of_le y z k h2 h3, Dy.cmp_eq_of_le x z k h1 h3⟩
+
+theorem F.totalCmp_trans {a b c : F} (h1 : F.totalCmp a b ≠ .gt) (h2 : F.totalCmp b c ≠ .gt) : F.totalCmp a c ≠ .gt := by
+  cases a <;> cases b <;> cases c <;> simp only [F.totalCmp] at * <;>
+    try (first | (exact icmp_trans h1 h2) | (rw [icmp_le_iff] at *; simp [F.cls] at *; omega) | (simp [icmp, F.cls] at *; done))
+  · rename_i s1 m1 e1 sb s3 m3 e3
+    cases sb <;> simp [icmp, F.cls] at h1 h2
+  · rename_i s1 m1 e1 sb s3 m3 e3
+    cases sb <;> simp [icmp, F.cls] at h1 h2
+  · rename_i s1 m1 e1 s2 m2 e2 s3 m3 e3
+    obtain ⟨X, Y, Z, hxy, hyz, hxz⟩ := Dy.cmp3 ⟨F.snum s1 m1, e1⟩ ⟨F.snum s2 m2, e2⟩ ⟨F.snum s3 m3, e3⟩
+    rw [hxy] at h1; rw [hyz] at h2; rw [hxz]
+    rcases Int.lt_trichotomy X Y with hXY | hXY | hXY
+    · rcases Int.lt_trichotomy Y Z with hYZ | hYZ | hYZ
+      · rw [icmp_lt_iff.mpr (by omega : X < Z)]; simp
+      · rw [icmp_lt_iff.mpr (by omega : X < Z)]; simp
+      · rw [icmp_gt_iff.mpr hYZ] at h2; simp at h2
+    · subst hXY
+      rcases Int.lt_trichotomy X Z with hYZ | hYZ | hYZ
+      · rw [icmp_lt_iff.mpr hYZ]; simp
+      · subst hYZ
+        rw [icmp_eq_iff.mpr rfl] at h1 h2 ⊢
+        simp only at h1 h2 ⊢
+        exact icmp_trans h1 h2
+      · rw [icmp_gt_iff.mpr hYZ] at h2; simp at h2
+    · rw [icmp_gt_iff.mpr hXY] at h1; simp at h1
+
+theorem sortKind_le {a b : Value} (h : sortCmp a b ≠ .gt) : sortKind a ≤ sortKind b := by
+  cases a <;> cases b <;> simp [sortCmp, sortKind, icmp] at h ⊢
+
+theorem sortCmp_lt_of_kind {a b : Value} (h : sortKind a < sortKind b) : sortCmp a b = .lt := by
+  cases a <;> cases b <;> simp [sortKind] at h <;> simp [sortCmp, sortKind, icmp]
+
+theorem sortCmp_trans {a b c : Value} (h1 : sortCmp a b ≠ .gt) (h2 : sortCmp b c ≠ .gt) : sortCmp a c ≠ .gt := by
+  have k1 := sortKind_le h1
+  have k2 := sortKind_le h2
+  by_cases hk : sortKind a < sortKind c
+  · rw [sortCmp_lt_of_kind hk]; simp
+  · have e1 : sortKind a = sortKind b := by omega
+    have e2 : sortKind b = sortKind c := by omega
+    cases a <;> cases b <;> simp [sortKind] at e1 <;> cases c <;> simp [sortKind] at e2 <;>
+      simp only [sortCmp] at * <;>
+      first | exact icmp_trans h1 h2 | exact F.totalCmp_trans h1 h2 | exact strCmp_trans h1 h2 | (simp [icmp, sortKind])
 
 
 end Varpulis.Expr
